@@ -5,6 +5,7 @@
   (The C19 filter equations are proved about the richer model in TwigModel.Filters.)
 -/
 import TwigModel.Value
+import TwigModel.Escape
 namespace Twig
 
 def isEmptyVal : Val → Bool
@@ -46,10 +47,9 @@ def mapM' {α β} (f : α → R β) : List α → R (List β)
   | [] => .ok []
   | x :: r => do let y ← f x; let ys ← mapM' f r; .ok (y :: ys)
 
-def escapeHtml (s : Bytes) : Bytes :=
-  s.flatMap fun c =>
-    if c == 38 then b "&amp;" else if c == 39 then b "&#39;" else if c == 60 then b "&lt;"
-    else if c == 62 then b "&gt;" else if c == 34 then b "&#34;" else [c]
+/-- the registered `escape`/`e` filter: exactly the escaper about which TwigProofs.C07 proves
+    no-raw-characters, round trip and pass-through for every byte string -/
+def escapeHtml (s : Bytes) : Bytes := Escape.escReg s
 
 /-- number of UTF-8 encoded runes (`utf8.RuneCountInString`): every byte that is not a continuation
     byte of a *valid* sequence counts; for ASCII this is the length. Non-ASCII → unsupported here. -/
